@@ -188,7 +188,12 @@ def st_gate(N, kinds=None):
         opts.append(st.fixed_dictionaries({'kind': st.just('CNOT'),
                                            'qubits': st.permutations(list(range(N))).map(lambda p: list(p[:2]))}))
     # qubit labels are handed over as Python ints (usual) or as NumPy integer scalars, e.g. elements of an index array (pyclifford only)
-    return st.tuples(st.one_of(*opts), st.sampled_from([None] * 8 + LABEL_FORMS)).map(lambda t: dict(t[0], labels=t[1]) if t[1] and t[0]['kind'] != 'rotc' else t[0])
+    def finish(t):
+        d = dict(t[0], labels=t[1]) if t[1] and t[0]['kind'] != 'rotc' else dict(t[0])
+        if t[2] is not None:
+            d['reject'] = t[2]        # before use, the gate receives a definition the library rejects (must raise and change nothing)
+        return d
+    return st.tuples(st.one_of(*opts), st.sampled_from([None] * 8 + LABEL_FORMS), st.sampled_from([None] * 9 + [0, 1, 2])).map(finish)
 
 
 LABEL_FORMS = ['int64', 'intp', 'uint8', 'uint32', 'uint64']
